@@ -7,8 +7,10 @@ CONSTANTS
   MaxTotal = 4
   MaxClose = 4
   Glitches = {"dataerr", "temperr", "shortwrite"}
+  Cuts = {"cuteof", "cutrst"}
+  CutPos = {0, 1, 2}
   Bufs = {1, 2}
 INIT Init
 NEXT Next
 VIEW View
-INVARIANTS TypeOK Prefix Conservation EofAfterAll HalfClose
+INVARIANTS TypeOK Prefix Conservation EofAfterAll HalfClose CleanEof TruncatedNeverClean OneTerminal
